@@ -12,7 +12,7 @@ if os.path.exists(os.path.join(wt, 'NOTES.md')):
 r = subprocess.run(['/verif/tools/eval_seed.py', os.path.join(d, 'patch.diff')], capture_output=True, text=True)
 fired = json.loads(r.stdout.strip().splitlines()[-1]) if r.stdout.strip() else {}
 confirm = []
-for logf in ('/tmp/wt/confirm3.log', '/tmp/wt/confirm4.log', '/tmp/wt/confirm5.log', '/tmp/wt/confirm6.log', '/tmp/wt/confirm7.log', '/tmp/wt/confirm8.log'):
+for logf in ('/tmp/wt/confirm3.log', '/tmp/wt/confirm4.log', '/tmp/wt/confirm5.log', '/tmp/wt/confirm6.log', '/tmp/wt/confirm7.log', '/tmp/wt/confirm8.log', '/tmp/wt/confirm9.log'):
     if os.path.exists(logf):
         for part in open(logf).read().split('=== ')[1:]:
             if part.split('\n')[0].strip() == '%s %s' % (os.path.basename(wt), x):
